@@ -21,6 +21,7 @@ SCAN_ALPHABET = [":param", ":type", ":return", ":rtype", ":cvar", ":ivar", ":var
                  "```", "a:", ":returns:", ":rtype:", "é"]
 STYLES = ("rest", "google", "numpydoc")
 DOCS = ["the value", "first item to use", "the name shown to the user.", "size in bytes,", "extra flag", "base directory",
+        "the default port to listen on", "verbose by default",
         "a description long enough to be wrapped by the word wrapper when it is rendered with an indentation level"]
 
 
@@ -49,6 +50,8 @@ def gen_ir(rng, style):
     params = OrderedDict()
     for i, nm in enumerate(names):
         t = T.gen_type(rng, "doc")
+        if rng.random() < 0.12:
+            t = "Union[int, str]"       # a compound type that mentions str only nested: is a string default still quoted?
         p = {"typ": t, "doc": rng.choice(DOCS) if rng.random() < 0.4 else gen_prose(rng)}
         has = (i >= n - kdef) if style != "rest" else rng.random() < 0.5
         if has:
@@ -59,9 +62,9 @@ def gen_ir(rng, style):
                 p["default"] = inner[len("Literal['"):].split("'")[0]
             elif inner in T.SCALARS:
                 p["default"] = {"int": rng.choice([0, 5, -3, 42]), "float": rng.choice([0.5, -1.5, 1e+20, 2.25]),
-                                "str": rng.choice(["x", "hello world", "a+b"]), "bool": rng.choice([True, False])}[inner]
+                                "str": rng.choice(["x", "hello world", "a+b", "3", "-1", "True"]), "bool": rng.choice([True, False])}[inner]
             elif inner.startswith("Union[int"):
-                p["default"] = 5
+                p["default"] = rng.choice([5, 5, "abc", "3", "True"]) if "str" in inner else 5
             elif inner.startswith("List") or "." in inner:
                 p["default"] = rng.choice(["```[]```", "```None```"]) if rng.random() < 0.5 else T._ABSENT
                 if p["default"] is T._ABSENT:
@@ -306,6 +309,12 @@ def collect(ctx, n_ir, n_sdd):
     for i in range(n_ir):
         style = STYLES[i % 3]
         work.append(("ir", (gen_ir(rng, style), style)))
+    # corpus: string defaults that look like other literals, on types that mention str only nested
+    from collections import OrderedDict
+    for typ, dflt in (("Union[int, str]", "3"), ("Union[int, str]", "True"), ("List[str]", "-1"), ("Union[str, float]", "abc")):
+        work.append(("ir", ({"name": "thing", "doc": "Thing description.", "returns": None,
+                             "params": OrderedDict((("alpha", {"typ": "int", "doc": "the value"}),
+                                                    ("beta", {"typ": typ, "doc": "first item to use", "default": dflt})))}, "rest")))
     work += [("sdd", sdd_case(rng)) for _ in range(n_sdd)]
     work += [("rest", rest_case(rng)) for _ in range(n_sdd)]
     # corpus: a description whose prose makes the parser invent a type (the candidate `name` is eval()ed inside
